@@ -44,7 +44,7 @@ pub fn check_spec(prop: &str) -> Option<CheckSpec> {
         "C10" => base("C10", vec![Box::new(super::scen_scanedit::ScanEdit)], vec!["the client waits a generated number of scheduler steps (virtual time) before sending the notification; the handler then interleaves with the scan workers at DashMap lock points"]),
         "C19" => base("C19", vec![Box::new(super::scen_diag::Diag)], vec!["the history starts after the initial scan reported completion (a document opened during the scan is C10's subject)", "expected findings come from the library on a fresh twin built from the latest valid contents, the changed document analysed last"]),
         "C11" => base("C11", vec![Box::new(super::scen_chaos::Chaos { full_stack: false }), Box::new(super::scen_chaos::Chaos { full_stack: true }), Box::new(super::scen_chaos::ChaosCli)], vec!["alarms only for behaviour a conforming LSP client and a POSIX filesystem can produce (DESIGN.md §6.3); EIO-class disk errors and allocation failure are outside the simulation", "contents come from a generator of hostile layouts, not from byte-level grammar fuzzing (input generation is a different technique family)"]),
-        "C12" => base("C12", vec![Box::new(super::scen_locks::Locks { cyclic: false }), Box::new(super::scen_locks::Locks { cyclic: true })], vec!["the deadlock / self-deadlock detector and the step budgets are also active in every run of every other check", "1-shard placement over-approximates hashing: keys that collide there do collide for some hasher seed in production, which is what the statement forbids relying on", "read-inside-read nestings are admitted exactly as by dashmap 6.1.0's lock"]),
+        "C12" => base("C12", vec![Box::new(super::scen_locks::Locks { cyclic: false }), Box::new(super::scen_locks::Locks { cyclic: true }), Box::new(super::scen_chaos::Burst)], vec!["the deadlock / self-deadlock detector and the step budgets are also active in every run of every other check", "1-shard placement over-approximates hashing: keys that collide there do collide for some hasher seed in production, which is what the statement forbids relying on", "read-inside-read nestings are admitted exactly as by dashmap 6.1.0's lock"]),
         "C13" => base("C13", vec![Box::new(super::scen_discover::Discover { faults: false }), Box::new(super::scen_discover::Discover { faults: true })], vec!["only faults a real deployment produces without kernel help are injected (delete, truncate, EISDIR, dangling symlink, symlink loop, invalid UTF-8, rewrite); EIO/short reads are not", "exclude patterns are interpreted by the glob crate the repository documents; the ignore list is the documented one"]),
         "C20" => base("C20", vec![Box::new(super::scen_cli::Cli)], vec!["the CLI runs as a seeded child of the harness binary (same shims), so clap parsing, the handlers and process::exit are the real ones", "usage counts are keyed by (file, name) as the CLI prints them; the generator avoids a name defined twice in one file here"]),
         _ => return None,
